@@ -99,11 +99,19 @@ def run(ctx):
         ctx.ob('C31.advance', cls + '.lfsr.advance', ok, a[0].loc if a else None,
                'keystream advances only when a word is transferred and not held: %s' % [q.fmt(x) for x in a])
         c = s.drivers('lfsr.clear', exact=True)
-        want = sorted([sorted({('self.sink.ctrl[0:1]', True), ('%d == self.sink.payload[0:8]' % COM, True), ('self.sink.valid', True)}),
-                       [('self.clear', True)]])
+        com = {('self.sink.ctrl[0:1]', True), ('%d == self.sink.payload[0:8]' % COM, True), ('self.sink.valid', True)}
         got = sorted(sorted(d) for d in q.dnf(c[0].rhs)) if len(c) == 1 else None
-        ctx.ob('C31.clear', cls + '.lfsr.clear', len(c) == 1 and got == want and not c[0].guard, c[0].loc if c else None,
+        arms = [set(d) for d in (got or [])]
+        com_arms = [d for d in arms if com <= d]
+        ok = len(c) == 1 and not c[0].guard and len(arms) == 2 and [('self.clear', True)] in got and len(com_arms) == 1
+        ctx.ob('C31.clear', cls + '.lfsr.clear', ok, c[0].loc if c else None,
                'keystream restarts on clear or on a COM (K28.5) in symbol 0 of a valid word: %s' % [x.rhs.canon() for x in c])
+        # the restart belongs to the transfer of the COM word: restarting while the word still waits for source.ready
+        # scrambles its remaining data symbols with the restarted sequence, so the transferred word depends on the stall
+        extra = (com_arms[0] - com) if com_arms else None
+        ctx.ob('C31.clear', cls + '.lfsr.clear-on-transfer', extra == {('self.source.ready', True)}, c[0].loc if c else None,
+               'the COM restart must be conditioned on the transfer of that word (source.ready) and on nothing else: extra '
+               'conditions %s' % (sorted(extra) if extra is not None else None))
         for i in range(4):
             lo, hi = 8 * i, 8 * i + 8
             lhs = 'self.source.payload[%d:%d]' % (lo, hi)
